@@ -14,7 +14,7 @@ from rv import tables as T
 PROPERTY = 'C11'
 LEVEL = 'exploration'
 RULE = ('cases = (join | filter_tables) x seeded tables with shuffled column order and extra int / '
-        'float-with-NaN / bool / str / object columns x l_out_attrs/r_out_attrs in {None, [], [key], '
+        'float-with-NaN / bool / str / object columns (cells incl. Decimal, Fraction, tuples, bytes) x l_out_attrs/r_out_attrs in {None, [], [key], '
         '[join attr], duplicates, permutations, all} x prefixes (default, custom, equal when names '
         'are disjoint) x out_sim_score x n_jobs; tables are built so that the normal, empty-set and '
         'missing-value branches all produce rows. Non-trivial = at least one projected cell compared; '
